@@ -4,5 +4,5 @@ for p in "$@"; do /verif/bin/jdlint -property $p -root /repo -json | python3 -c 
 import sys,json
 for l in sys.stdin:
     if l.startswith('{'):
-        d=json.loads(l); json.dump([[o['rule'],o['construct']] for o in d['bad']],open('/tmp/baseline_bad_$p.json','w')); print('$p',len(d['bad']))
+        d=json.loads(l); json.dump([[o['rule'],o['construct']] for o in (d['bad'] or [])],open('/tmp/baseline_bad_$p.json','w')); print('$p',len(d['bad'] or []))
 "; done
